@@ -348,6 +348,9 @@ def isByteSlice : Ty → Bool
   | .slice (.prim .uint8) => true
   | _ => false
 
+/-- the schema of a struct: `{Kind: object, Properties: …, Required: …}` -/
+def objNode (req : List B) (props : PTree Head) : IR := .node { kind := .object, required := req } .none props .none
+
 def setNullable (t : IR) : IR := t.modHead fun h => { h with nullable := true }
 def arrayOf (t : IR) : IR := .node { kind := .array } (.some t) .nil .none
 def mapOf (t : IR) : IR := .node { kind := .object } .none .nil (.some t)
@@ -393,7 +396,7 @@ mutual
           if nm ≠ [] ∧ hasKey st nm then (refTo nm, st)
           else
             let r := genFields env (id :: seen) [] false (flatten env [id] fs) .nil [] st
-            let sch : IR := .node { kind := .object, required := r.2.1 } .none r.1 .none
+            let sch : IR := objNode r.2.1 r.1
             if nm ≠ [] then (refTo nm, (nm, sch) :: r.2.2) else (sch, r.2.2)
   termination_by (unseen env seen, unseen env opn, sizeOf t)
   decreasing_by
